@@ -1,6 +1,9 @@
 //! Provides functionality for handling sessions and tokens.
 
+#[cfg(not(humphrey_verif))]
 use std::time::UNIX_EPOCH;
+#[cfg(humphrey_verif)]
+use humsim::time::UNIX_EPOCH;
 
 use rand_core::{OsRng, RngCore};
 
